@@ -71,5 +71,27 @@ class StreamDrop(srv.SrvHarness):
         return out
 
 
-HARNESSES = {'timeout_race': TimeoutRace, 'stream_drop': StreamDrop}
-PLAN = {'quick': ['timeout_race', 'stream_drop'], 'thorough': ['timeout_race', 'stream_drop']}
+class AsyncAbandon(srv.ASrvHarness):
+    """the same abandonments on AsyncServer (callers are tasks on a virtual event loop, the gather thread is a real thread):
+    a deadline that expires while the environment still holds the call, an abandoned stream, a saturated server whose only
+    slot belongs to the abandoned request while another request waits for it"""
+    name = 'async_abandon'
+
+    def configs(self, tier):
+        quick = tier == 'quick'
+        d = 1 if quick else 2
+        cap = 100000 if quick else 1000000
+        return [
+            dict(topo='single', capacity=1, gated=['A'], env_wait=True, env_wait_t=3.0,
+                 calls=[[[0, 2, False]], [[1, 1000, False]]], late_call=9, oracles=O, bound=d, cap=cap),
+            dict(topo='single', capacity=2, gated=['A'], env_wait=True, env_wait_t=3.0, fail={'A': [0]},
+                 calls=[[[0, 2, False]], [[1, 1000, False]], [[2, 1000, False]]], late_call=9, oracles=O, bound=d, cap=cap),
+            dict(topo='single', capacity=1, gated=['A'], env_wait=True, env_wait_t=3.0, calls=[[[10, 2, False]]],
+                 late_call=9, stream=dict(xs=[0, 1], stop_after=1), oracles=O, bound=d, cap=cap),
+            dict(topo='single', capacity=4, gated=['A'], calls=[[[10, 1000, False]]], late_call=9,
+                 stream=dict(xs=[0, 1, 2], stop_after=1), oracles=O, bound=d, cap=cap),
+        ]
+
+
+HARNESSES = {'timeout_race': TimeoutRace, 'stream_drop': StreamDrop, 'async_abandon': AsyncAbandon}
+PLAN = {'quick': ['timeout_race', 'stream_drop', 'async_abandon'], 'thorough': ['timeout_race', 'stream_drop', 'async_abandon']}
